@@ -29,6 +29,7 @@ type epHandler struct {
 	slot    int
 	lateOK  bool // a shutdown has completed since
 	madeAfterClose bool
+	early   int32 // the queue was found closed by the close callback: the callback has to come first
 }
 
 type epWorld struct {
@@ -73,7 +74,20 @@ func (w *epWorld) makeHandler(mod, res, dropOn uint32, capacity int) *epHandler 
 		keep := !(h.dropOn != 0 && hdr.ID == h.dropOn)
 		return matched, keep
 	}
-	closer := func(err error) { atomic.AddInt64(&h.closer, 1) }
+	closer := func(err error) {
+		// the callback comes before the close of the queue: with nothing queued (nobody else reads this queue),
+		// a receive that returns at once has found the queue closed
+		if len(h.queue) == 0 {
+			select {
+			case _, ok := <-h.queue:
+				if !ok {
+					atomic.StoreInt32(&h.early, 1)
+				}
+			default:
+			}
+		}
+		atomic.AddInt64(&h.closer, 1)
+	}
 	w.handlers = append(w.handlers, h)
 	h.slot = w.ep.MakeHandler(filter, h.queue, closer)
 	return h
@@ -202,6 +216,9 @@ func execEp(op string) func(a []string) string {
 					cl = 1
 				}
 				parts[i] = fmt.Sprintf("u%d:recv=[%s],closer=%d,closed=%d", h.uid, strings.Join(ids, " "), atomic.LoadInt64(&h.closer), cl)
+				if atomic.LoadInt32(&h.early) != 0 {
+					parts[i] += ",queue-closed-before-callback"
+				}
 			}
 			return strings.Join(parts, ";") + fmt.Sprintf(";errs=%d", atomic.LoadInt64(&w.errs))
 		}
